@@ -41,6 +41,9 @@ def kind? : String → Option Kind
   | "uint64" => some ⟨64, false⟩ | "uint" => some ⟨64, false⟩ | "uintptr" => some ⟨64, false⟩
   | _ => none
 
+/-- the distinct (width, signedness) pairs of the eleven integer kinds -/
+def kinds : List Kind := [⟨8, true⟩, ⟨16, true⟩, ⟨32, true⟩, ⟨64, true⟩, ⟨8, false⟩, ⟨16, false⟩, ⟨32, false⟩, ⟨64, false⟩]
+
 /-- Go's integer conversion `TO(x)` of an `int64` value: keep the low `bits` bits, reinterpret -/
 def toKind (k : Kind) (x : Int) : Int :=
   if k.signed then (x + 2 ^ (k.bits - 1)) % 2 ^ k.bits - 2 ^ (k.bits - 1) else x % 2 ^ k.bits
